@@ -2091,6 +2091,9 @@ DenseMatrix DenseMatrix::loads(const std::string &serialized)
                                  << minor << ".");
     }
     iarchive(row, col, obj);
+    if (obj.size() != static_cast<size_t>(row) * col) {
+        throw SerializationError("invalid matrix dimensions");
+    }
     return DenseMatrix(row, col, std::move(obj));
 #else
     throw NotImplementedError("Serialization not implemented in no-rtti mode");
